@@ -423,6 +423,7 @@ func (a *admin) intruder() {
 	ni := cands[t.Choose(rt.StPlan, len(cands))]
 	if t.Chance(rt.StPlan, 1, 3) {
 		// change of identity
+		ni.node.tampered = true // SetIdentity takes the directory lock for a moment: a start at that moment is refused
 		err := SetIdentity(ni.dir, ni.node.cid+7, ni.node.id+3)
 		run.led.onSetIdentityAttempt(ni, err)
 		return
